@@ -37,13 +37,15 @@ def gen_family(rng, n_roots=(1, 3), n_cond=(2, 8), n_rdm=(1, 4)):
     used = set()
     measure = rng.pick(['euclidean', None, 'corr'])
     rtyp = rng.pick(['int', 'str', 'float'])
+    styp = rng.pick(['str', 'str', 'int'])     # object-level descriptor values incl. falsy ones ('' / 0), one type per family
+    sess_vals = ['s1', 's2', '', 's7'] if styp == 'str' else [0, 1, 2, 0]
     wgt = rng.chance(0.4)      # a float64 ndarray rdm descriptor usable as weights      # one label type per descriptor across the family (mixed-type columns are coerced by numpy)
     for _ in range(rng.randint(*n_roots)):
         nr = rng.randint(*n_rdm)
         ru = rng.sample([u for u in range(1, 90) if u not in used], nr)
         used.update(ru)
         spec = {'rdm_uids': ru, 'cond_uids': list(cond_uids), 'measure': measure,
-                'descriptors': {'session': rng.pick(['s1', 's2', 's7'])},
+                'descriptors': {'session': rng.pick(sess_vals), **({'subj': rng.pick(sess_vals)} if rng.chance(0.3) else {})},
                 'rdm_desc': {'grp': gen.gen_grouping(rng, nr, typ=rtyp),
                              **({'wgt': {'values': [1.0 + 0.5 * i for i in range(nr)], 'container': 'array'}} if wgt else {}),
                              'extra': {'values': ['x%d' % u for u in ru], 'container': rng.pick(['list', 'array'])}},
@@ -438,6 +440,41 @@ class RdmsOps:
             sem2 = None if src.sem is None else {**src.sem, 'ru': list(src.sem['ru']), 'cu': list(src.sem['cu'])}
             self._finish('inverse_permute_rdms', back, sem2, [s.sid])
 
+    @staticmethod
+    def _expected_odesc(objs):
+        """per key of any operand's object-level descriptors: the value each RDM of the combination carries"""
+        keys = []
+        for ob in objs:
+            keys += [k for k in ob.descriptors if k not in keys]
+        exp = {}
+        for k in keys:
+            vals = []
+            for ob in objs:
+                for i in range(ob.n_rdm):
+                    if k in ob.rdm_descriptors:
+                        vals.append(norm(ob.rdm_descriptors[k][i]))
+                    elif k in ob.descriptors:
+                        vals.append(norm(ob.descriptors[k]))
+                    else:
+                        vals.append(None)
+            exp[k] = vals
+        return exp
+
+    def _check_odesc(self, res, exp, opname):
+        for k, vals in exp.items():
+            if k in res.descriptors:
+                got = [norm(res.descriptors[k])] * len(vals)
+            elif k in res.rdm_descriptors:
+                got = normlist(res.rdm_descriptors[k])
+            else:
+                self.pool.report('C10', 'rdms_twin.descriptors', f'{opname}:object-descriptors',
+                                 f'object-level descriptor {k!r} of the operands is neither a descriptor nor an rdm_descriptor of the result')
+                continue
+            if got != vals:
+                self.pool.report('C10', 'rdms_twin.descriptors', f'{opname}:object-descriptors',
+                                 f'object-level descriptor {k!r}: the RDMs of the result carry {got!r}, the operands say {vals!r}')
+            self.ctx.probe('odesc_checked' + ('_demoted' if k not in res.descriptors else ''))
+
     def op_from_partials(self, o):
         from rsatoolbox.rdm.combine import from_partials
         src = self.pick(o, sem_only=True)
@@ -458,11 +495,19 @@ class RdmsOps:
                     part = part[k % src.obj.n_rdm]
             except Exception as e:
                 return self._raise('from_partials:prepare', e)
+            if o['flag2']:
+                # object-level descriptors that differ between the partials are demoted to rdm_descriptors
+                od = dict(part.descriptors)
+                v0 = od.get('session', 's1')
+                od['session'] = (['', 's1', 's9'] if isinstance(v0, str) else [0, 4, 9])[(o['a'][1] + k) % 3]
+                part.descriptors = od
             parts.append(part)
+        exp_od = self._expected_odesc(parts)
         try:
             res = from_partials(parts, descriptor='uid')
         except Exception as e:
             return self._raise('from_partials', e)
+        self._check_odesc(res, exp_od, 'from_partials')
         ru, order, present = [], [], set()
         for part in parts:
             pr, pc = normlist(part.rdm_descriptors['uid']), normlist(part.pattern_descriptors['uid'])
@@ -520,6 +565,7 @@ class RdmsOps:
         if o['a'][4] % 3 == 0:
             kw['target_pdesc'] = 'uid'
         lst = [s.obj for s in ops]
+        exp_od = self._expected_odesc(lst)
         try:
             if o['flag']:
                 res = concat(lst if o['a'][5] % 2 else tuple(lst), **kw)
@@ -539,6 +585,7 @@ class RdmsOps:
         for s_ in ops:
             dropped |= set(s_.sem.get('dropped_keys', ()))
         sem = {'ru': ru, 'cu': list(first.sem['cu']), 'missing': missing, 'dropped_keys': tuple(sorted(dropped))}
+        self._check_odesc(res, exp_od, 'concat')
         st = self.pool.add(res, 'rdms', sem, 'concat', [s.sid for s in ops])
         self.pool.check_rdms(st, 'concat')
         self.pool.sweep('concat', args=[s.sid for s in ops], produced=[st.sid])
